@@ -96,8 +96,8 @@ InvAnswersFromLastRun ==
                    ELSE Answer(hist[i].op, LastRun(hist, i - 1)))
     /\ hist[i].op = "run" => obs[i] = (IF DmAt(hist, i - 1) THEN [kind |-> "ok"] ELSE Refuse)
 (* consequences of the definition *)
-InvLabelBudget == Len(hist) >= 0 => \A c \in Cfgs : Labelled(c) => \A s \in 1..NSeg(c) : Idx(c, s) + 1 <= NWanted(c)
-InvPanels == Len(hist) >= 0 => \A c \in Cfgs : /\ Len(Panels(c)) = (IF c.legacy THEN 1 ELSE Cardinality({s \in 1..NSeg(c) : ~ Conn(c)[s] \/ s = NSeg(c)}))
+InvLabelBudget == hist = <<>> => \A c \in Cfgs : Labelled(c) => \A s \in 1..NSeg(c) : Idx(c, s) + 1 <= NWanted(c)
+InvPanels == hist = <<>> => \A c \in Cfgs : /\ Len(Panels(c)) = (IF c.legacy THEN 1 ELSE Cardinality({s \in 1..NSeg(c) : ~ Conn(c)[s] \/ s = NSeg(c)}))
                              /\ SumTo([p \in DOMAIN Panels(c) |-> Len(Panels(c)[p])], Len(Panels(c))) = (IF c.legacy THEN NSeg(c) + 1 ELSE NSeg(c) + Len(Panels(c)))
 Emit == Len(hist) = Depth => PrintT(ToString(<<"SES", dm0, hist, obs>>))
 =============================================================================
